@@ -3,8 +3,8 @@ From TT Require Import Base.Prelude Base.SrtTypes Gen.SrtTables Model.SrtReader 
 From Coq Require Import QArith.
 Local Open Scope Z_scope.
 
-Definition k1 : clock := mkClock 0 false 0 1 0.
-Definition k2 : clock := mkClock 0 false 0 2 500.
+Definition k1 : clock := mkClock 0 2 0 1 0.
+Definition k2 : clock := mkClock 0 2 0 2 500.
 Definition one_cue (p : list node) (crlf : bool) : file_src :=
   mkFile [] [mkCue [49] k1 [32] [32] k2 [] p [[]]] crlf true.
 
@@ -35,7 +35,7 @@ Lemma ambiguous_stray_excluded :
 Proof. vm_compute. reflexivity. Qed.
 
 (* the exactness clause was false of the code before the fix: 0.28 is not 7/25; now the value is the rational *)
-Lemma example_280 : read_cues (print_file (mkFile [] [mkCue [49] (mkClock 0 false 0 0 280) [32] [32] (mkClock 0 false 0 1 70) [] [NChar 120] [[]]] false true))
+Lemma example_280 : read_cues (print_file (mkFile [] [mkCue [49] (mkClock 0 2 0 0 280) [32] [32] (mkClock 0 2 0 1 70) [] [NChar 120] [[]]] false true))
   = Ok [(Qmake 7 25, Qmake 107 100, [Ch 120 st0])].
 Proof. vm_compute. reflexivity. Qed.
 
@@ -44,7 +44,7 @@ Proof. vm_compute. reflexivity. Qed.
    CR LF terminators *)
 Definition f_example : file_src :=
   mkFile [[]; [32]]
-    [mkCue [32;55;55] (mkClock 100 true 59 59 999) [9] [32;32] (mkClock 999 true 99 99 0) [32;88;49]
+    [mkCue [32;55;55] (mkClock 100 3 59 59 999) [9] [32;32] (mkClock 999 3 99 99 0) [32;88;49]
        [NTag KB AngleShort [NChar 97; NTag KI AngleLong [NChar 98; NBreak; NChar 99]; NTag KU AngleUpper [NChar 100]]; NFont (CHex6 255 0 128 true) QBare [NChar 101; NFont (CNamed 15 false) QDouble [NChar 102]]; NTag KI BraceLong [NRef RAmp; NStray KB BraceShort; NRef (RDec 8364)]; NStray KU AngleLong; NChar 92; NChar 62] [[]; [9]; []];
      mkCue [35;50] k1 [32] [32] k2 [] [NChar 8364; NBreak; NChar 120] []]
     true true.
@@ -63,7 +63,7 @@ Proof. vm_compute. repeat split. Qed.
 Definition w_example : list wcue :=
   [mkW [49] 1000 2500 [WFont 255 0 0 255 [WBold [WChar 97; WItalic [WChar 98]]; WBreak; WUnder [WChar 99]]; WChar 33];
    mkW [50] 359999999 360000001 [WChar 120; WBreak; WChar 121]].
-Lemma writer_example : wwf w_example = true /\ trigger_hours_1000 w_example = false /\
+Lemma writer_example : wwf w_example = true /\
   wprint w_example =
     [49;10; 48;48;58;48;48;58;48;49;44;48;48;48; 32;45;45;62;32; 48;48;58;48;48;58;48;50;44;53;48;48; 10;
      60;102;111;110;116;32;99;111;108;111;114;61;34;35;102;102;48;48;48;48;102;102;34;62; 60;98;62; 97; 60;105;62; 98; 60;47;105;62; 60;47;98;62; 10;
@@ -76,8 +76,15 @@ Lemma writer_example : wwf w_example = true /\ trigger_hours_1000 w_example = fa
      (Qmake 359999999 1000, Qmake 360000001 1000, [Ch 120 st0; Brk; Ch 121 st0])].
 Proof. vm_compute. repeat split. Qed.
 
-(* recorded finding hours-beyond-999-rejected: 999:59:59,000 --> 1000:00:00,000 as the writer prints it is not read *)
-Definition w_hours : list wcue := [mkW [49] 3599999000 3600000000 [WChar 120]].
-Lemma writer_hours_refuted : exists cs, wwf cs = true /\ trigger_hours_1000 cs = true /\
-  read_cues (wprint cs) = RetNone /\ read_cues_file (wprint cs) = RetNone.
-Proof. exists w_hours. vm_compute. repeat split. Qed.
+(* the witness of the repaired finding hours-beyond-999-rejected: 999:59:59,000 --> 1000:00:00,000 as the writer prints
+   it (a four-digit hour field) is read as written; so is an hour field of thirteen digits *)
+Definition w_hours : list wcue := [mkW [49] 3599999000 3600000000 [WChar 120]; mkW [50] 3600000000 4444444444444444444 [WChar 121]].
+Lemma writer_hours_read : wwf w_hours = true /\
+  wprint w_hours =
+    [49;10; 57;57;57;58;53;57;58;53;57;44;48;48;48; 32;45;45;62;32; 49;48;48;48;58;48;48;58;48;48;44;48;48;48; 10; 120;10; 10;
+     50;10; 49;48;48;48;58;48;48;58;48;48;44;48;48;48; 32;45;45;62;32;
+            49;50;51;52;53;54;55;57;48;49;50;51;52;58;51;52;58;48;52;44;52;52;52; 10; 121;10] /\
+  read_cues (wprint w_hours) = Ok (map wmeaning w_hours) /\ read_cues_file (wprint w_hours) = Ok (map wmeaning w_hours) /\
+  map wmeaning w_hours = [(Qmake 3599999 1, Qmake 3600000 1, [Ch 120 st0]);
+                          (Qmake 3600000 1, Qmake 1111111111111111111 250, [Ch 121 st0])].
+Proof. vm_compute. repeat split. Qed.
